@@ -671,6 +671,15 @@ def r3_index(ctx):
                why='writer and reader of the tables must compute the same slot')
 
 
+def is_fail(v):
+    """the failure value of a fallible helper: Err(..) of a Result, None of an Option"""
+    return is_err_result(v) or (v is not None and v[0] == 'agg' and v[3] == 'None' and 'Option' in str(v[2]))
+
+
+def is_succ(v):
+    return is_ok_result(v) or (v is not None and v[0] == 'agg' and v[3] == 'Some' and 'Option' in str(v[2]))
+
+
 def r4_acceptance(ctx):
     rule = 'C11.R4-generator-acceptance'
     facts = ctx.facts
@@ -679,9 +688,12 @@ def r4_acceptance(ctx):
     ctx.touch(name)
     rets = [o for o in outs if o.kind == 'return']
     ok = bool(rets)
+    tmt = facts.need_fn(PM + 'try_make_table')
+    success = 1 if tmt.local_ty(0).startswith('std::option::Option<') else 0          # Some(table) resp. Ok(table)
+    mask_param = None
     for o in rets:
         t = [c for c in o.conds if c[0][0] == 'discr' and c[0][1][0] == 'call' and c[0][1][1] == PM + 'try_make_table']
-        ok = ok and len(t) == 1 and t[0][1] == 0
+        ok = ok and len(t) == 1 and t[0][1] == success
         v = o.value
         if ok and v[0] == 'agg':
             entry = v[4][0][1]
@@ -698,10 +710,13 @@ def r4_acceptance(ctx):
                 elif x[0] == 'call' and x[1].endswith('count_ones') and strip_cast(x[2][0]) in (f.get('mask'), ('fld', f.get('mask'), '0')):
                     shift_ok = True
             mask_ok = f.get('mask', ('x',))[0] == 'call' and f['mask'][1].endswith('relevant_blockers')
+            if not mask_ok and f.get('mask', ('x',))[0] == 'p':
+                mask_param = f['mask'][1]                  # computed by the caller and handed in (checked at the call below)
+                mask_ok = True
             call = t[0][0][1]
             same_entry = True
             ok = ok and shift_ok and mask_ok
-    if ok and bits_param is not None:
+    if ok and (bits_param is not None or mask_param is not None):
         # the caller must hand in popcount(relevant_blockers(square)) for the same piece and square
         cname = PM + 'find_and_write_magics'
         couts = Engine(facts, opaque={PM + 'find_magic', PM + 'SlidingPiece::relevant_blockers'}, max_paths=3000).run(cname)
@@ -711,12 +726,17 @@ def r4_acceptance(ctx):
                 if e[0] == 'call' and e[1] == name:
                     n_calls += 1
                     a = e[2]
-                    b = strip_cast(a[bits_param - 1])
-                    good = b[0] == 'call' and b[1].endswith('count_ones')
-                    if good:
-                        m_ = strip_cast(b[2][0])
-                        m_ = m_[1] if m_[0] == 'fld' and m_[2] == '0' else m_
-                        good = m_[0] == 'call' and m_[1].endswith('relevant_blockers') and m_[2][0] == a[0] and m_[2][1] == a[1]
+                    good = True
+                    if bits_param is not None:
+                        b = strip_cast(a[bits_param - 1])
+                        good = b[0] == 'call' and b[1].endswith('count_ones')
+                        if good:
+                            m_ = strip_cast(b[2][0])
+                            m_ = m_[1] if m_[0] == 'fld' and m_[2] == '0' else m_
+                            good = m_[0] == 'call' and m_[1].endswith('relevant_blockers') and m_[2][0] == a[0] and m_[2][1] == a[1]
+                    if mask_param is not None:
+                        m_ = strip_cast(a[mask_param - 1])
+                        good = good and m_[0] == 'call' and m_[1].endswith('relevant_blockers') and m_[2][0] == a[0] and m_[2][1] == a[1]
                     args_ok = args_ok and good
         ok = ok and args_ok and n_calls >= 1
     ctx.ob(rule, name, 'a magic is returned only when try_make_table succeeded; shift = 64 - bits; mask = relevant blockers', ok,
@@ -724,15 +744,15 @@ def r4_acceptance(ctx):
     name = PM + 'try_make_table'
     outs = Engine(facts, opaque={PM + 'SlidingPiece::targets', PM + 'magic_index'}).run(name)
     ctx.touch(name)
-    errs = [o for o in outs if o.kind == 'return' and is_err_result(o.value)]
-    oks = [o for o in outs if o.kind == 'return' and is_ok_result(o.value)]
+    errs = [o for o in outs if o.kind == 'return' and is_fail(o.value)]
+    oks = [o for o in outs if o.kind == 'return' and is_succ(o.value)]
     # Err path: slot non-empty and different from moves
     oke = bool(errs)
     for o in errs:
         cs = [show_cond(c) for c in o.conds]
         oke = oke and any('targets' in c and ('== 0' in c or 'Not' in c or '!=' in c or 'not in' in c) for c in cs)
     # a path that continues (backedge) with a filled slot must have found it equal
-    conts = [o for o in outs if o.kind in ('backedge',) or (o.kind == 'return' and is_ok_result(o.value))]
+    conts = [o for o in outs if o.kind in ('backedge',) or (o.kind == 'return' and is_succ(o.value))]
     ctx.ob(rule, name, 'returns Err when a filled slot holds a different attack set', oke, found=[[show_cond(c) for c in o.conds][-3:] for o in errs][:2],
            expected='else if *slot != moves { return Err }', why='an undetected destructive collision stores one attack set for two blocker configurations')
     tl = False
@@ -930,7 +950,7 @@ def subset_walk(ctx, rule, name, opaque, val_fn, masks, what):
     ctx.ob(rule, name, what + ': each iteration computes the attack set and the slot from the same blocker set', body_ok)
     cont = [o for o in through if o.kind == 'backedge' and o.where and o.where[1] == H]
     stop = [o for o in through if not (o.kind == 'backedge' and o.where and o.where[1] == H) and o.kind != 'abort'
-            and not (o.kind == 'return' and is_err_result(o.value))]
+            and not (o.kind == 'return' and is_fail(o.value))]
     if not cont or not stop:
         ctx.ob(rule, name, what + ': fill loop has a continuing and a terminating path', False, found={'continuing': len(cont), 'terminating': len(stop)})
         return
